@@ -4,8 +4,8 @@ import PyramidModel.Gen.C06
 /-!
 C06 — executable model of route URL generation and of the way a generated path comes back to the matcher.
 Core Lean only.  Tokens, the `%`-template (`genTemplate`) and the matcher are C01's (`PyramidModel.Route`, read-only);
-percent-coding and UTF-8 are C02's/C17's (`Pyr.Trav`, `Pyr.Pct`); the safe-character sets are regenerated from the
-source on every run (`Gen/C06.lean`, by `extract/c06.py`).
+percent-coding and UTF-8 are C02's/C17's (`Pyr.Trav`, `Pyr.Pct`); the safe-character sets are measured on the tree
+under test on every run (`Gen/C06.lean`, by `extract/c06.py`, through `Route.generate` / `Request.route_path`).
 
 Functions modelled (line numbers of src/pyramid/urldispatch.py unless said otherwise)
 * `atomText`, `qAtom`          `quote_path_segment(v, safe=PATH_SAFE)` on a str / bytes / other object
